@@ -41,7 +41,7 @@ Section Greedy.
   Proof.
     intros x ys; induction ys as [|y r IH]; simpl; auto.
     change (eqR x y) with (Ok (eqb x y)). destruct (eqb x y) eqn:E.
-    - split; [reflexivity|split]; [intro w; reflexivity|apply Permutation_refl].
+    - split; [exact E|split]; [intro w; reflexivity|apply Permutation_refl].
     - destruct (find_remove (eqR x) r) as [[[z r']|]|e]; simpl in *.
       + destruct IH as (H1 & H2 & H3). split; [exact H1|split].
         * intro w. rewrite H2. destruct (eqb w y), (eqb w z); simpl; lia.
@@ -93,16 +93,18 @@ Section Greedy.
   Qed.
 
   Corollary greedy_refl : forall xs, matched (greedyR eqR xs xs) = true.
-  Proof. intro. apply greedy_counts. reflexivity. Qed.
+  Proof. intro. apply (proj2 (greedy_counts xs xs)). reflexivity. Qed.
 
   Corollary greedy_sym : forall xs ys,
     matched (greedyR eqR xs ys) = matched (greedyR eqR ys xs).
   Proof.
     intros. destruct (matched (greedyR eqR xs ys)) eqn:E1, (matched (greedyR eqR ys xs)) eqn:E2; auto.
-    - apply greedy_counts in E1. assert (H : matched (greedyR eqR ys xs) = true).
-      { apply greedy_counts. intro z. symmetry. apply E1. } congruence.
-    - apply greedy_counts in E2. assert (H : matched (greedyR eqR xs ys) = true).
-      { apply greedy_counts. intro z. symmetry. apply E2. } congruence.
+    - pose proof (proj1 (greedy_counts xs ys) E1) as C.
+      assert (H : matched (greedyR eqR ys xs) = true).
+      { apply (proj2 (greedy_counts ys xs)). intro z. symmetry. apply C. } congruence.
+    - pose proof (proj1 (greedy_counts ys xs) E2) as C.
+      assert (H : matched (greedyR eqR xs ys) = true).
+      { apply (proj2 (greedy_counts xs ys)). intro z. symmetry. apply C. } congruence.
   Qed.
 
   Corollary greedy_order_blind : forall xs xs' ys ys',
@@ -111,11 +113,724 @@ Section Greedy.
   Proof.
     intros xs xs' ys ys' P1 P2.
     destruct (matched (greedyR eqR xs ys)) eqn:E1, (matched (greedyR eqR xs' ys')) eqn:E2; auto.
-    - apply greedy_counts in E1. assert (H : matched (greedyR eqR xs' ys') = true).
-      { apply greedy_counts. intro z. rewrite <- (cnt_perm z _ _ P1), <- (cnt_perm z _ _ P2). apply E1. }
+    - pose proof (proj1 (greedy_counts xs ys) E1) as C.
+      assert (H : matched (greedyR eqR xs' ys') = true).
+      { apply (proj2 (greedy_counts xs' ys')). intro z.
+        rewrite <- (cnt_perm z _ _ P1), <- (cnt_perm z _ _ P2). apply C. }
       congruence.
-    - apply greedy_counts in E2. assert (H : matched (greedyR eqR xs ys) = true).
-      { apply greedy_counts. intro z. rewrite (cnt_perm z _ _ P1), (cnt_perm z _ _ P2). apply E2. }
+    - pose proof (proj1 (greedy_counts xs' ys') E2) as C.
+      assert (H : matched (greedyR eqR xs ys) = true).
+      { apply (proj2 (greedy_counts xs ys)). intro z.
+        rewrite (cnt_perm z _ _ P1), (cnt_perm z _ _ P2). apply C. }
       congruence.
   Qed.
 End Greedy.
+
+(* ====================================================================== *)
+(* B. totality of the repaired code                                       *)
+(* ====================================================================== *)
+Definition okR {T} (r : result T) : Prop := exists t, r = Ok t.
+
+Lemma okR_Ok {T} (t : T) : okR (Ok t).
+Proof. now exists t. Qed.
+#[export] Hint Resolve okR_Ok : c05.
+
+Lemma andR_ok a k : okR a -> okR k -> okR (andR a k).
+Proof. intros [b ->] [c ->]. destruct b; simpl; eauto with c05. Qed.
+
+Lemma rbind_ok {S T} (r : result S) (f : S -> result T) :
+  okR r -> (forall s, okR (f s)) -> okR (rbind r f).
+Proof. intros [s ->] H. simpl. apply H. Qed.
+
+Lemma ign_list_new ifv ip : okR (ign_list New ifv ip).
+Proof. unfold ign_list; simpl. destruct ifv; eauto with c05. Qed.
+
+Lemma pd_eq_new o ip x y : okR (pd_eq New o ip x y).
+Proof.
+  unfold pd_eq. destruct (negb _); eauto with c05. destruct (p_ext x); eauto with c05.
+  apply rbind_ok; [apply ign_list_new|eauto with c05].
+Qed.
+
+Lemma opt_pd_eq_new o x y : okR (opt_pd_eq New o x y).
+Proof. destruct x, y; simpl; eauto using pd_eq_new with c05. Qed.
+
+Lemma cons_body_eq_new o x y : okR (cons_body_eq New o x y).
+Proof.
+  unfold cons_body_eq. repeat apply andR_ok; eauto using pd_eq_new, opt_pd_eq_new with c05.
+Qed.
+
+Lemma find_remove_ok {B} (p : B -> result bool) l :
+  (forall b, okR (p b)) -> okR (find_remove p l).
+Proof.
+  intro H; induction l as [|y r IH]; simpl; eauto with c05.
+  destruct (H y) as [b ->]. destruct b; eauto with c05.
+  destruct IH as [t ->]. destruct t as [[z r']|]; eauto with c05.
+Qed.
+
+Lemma greedyR_ok {A B} (eq : A -> B -> result bool) xs :
+  (forall a b, okR (eq a b)) -> forall ys, okR (greedyR eq xs ys).
+Proof.
+  intro H; induction xs as [|x xs IH]; intro ys; simpl; eauto with c05.
+  destruct (find_remove_ok (eq x) ys (H x)) as [t ->].
+  destruct t as [[y ys']|]; eauto with c05.
+  destruct (IH ys') as [t ->]. destruct t; eauto with c05.
+Qed.
+
+Lemma match_types_new o other tys i0 i1 : okR (match_types New o other tys i0 i1).
+Proof.
+  induction tys as [|t rest IH]; simpl; eauto with c05.
+  destruct (negb _); eauto with c05.
+  destruct (greedyR_ok (fun a b : string * cons => cons_body_eq New o (snd a) (snd b)) (role t i0)
+              (fun a b => cons_body_eq_new o (snd a) (snd b)) (role t i1)) as [g ->].
+  destruct g; eauto with c05. destruct IH as [q ->]. destruct q; eauto with c05.
+Qed.
+
+Local Arguments match_types : simpl never.
+
+Lemma find_group_new o other g0 gs1 : okR (find_group New o other g0 gs1).
+Proof.
+  destruct g0 as [ax0 i0].
+  induction gs1 as [|[ax1 i1] r IH]; simpl; eauto with c05.
+  assert (C : okR (match find_group New o other (ax0, i0) r with
+                   | Ok (Some (g, r', ps)) => Ok (Some (g, (ax1, i1) :: r', ps)) | x => x end)).
+  { destruct IH as [t ->]. destruct t as [[[g r'] ps]|]; eauto with c05. }
+  destruct (negb _); auto.
+  destruct (match_types_new o other type_order i0 i1) as [t ->].
+  destruct t; eauto with c05.
+Qed.
+
+Lemma match_groups_new o other gs0 : forall gs1, okR (match_groups New o other gs0 gs1).
+Proof.
+  induction gs0 as [|g0 r0 IH]; intro gs1; simpl; eauto with c05.
+  destruct (find_group_new o other g0 gs1) as [t ->].
+  destruct t as [[[g1 gs1'] ps]|]; eauto with c05.
+  destruct (IH gs1') as [t ->]. destruct t as [[aps qs]|]; eauto with c05.
+Qed.
+
+Lemma map_axes_new z : forall m01 m10, okR (map_axes New m01 m10 z).
+Proof.
+  induction z as [|[a0 a1] r IH]; intros m01 m10; simpl; eauto with c05.
+  destruct (match assoc a0 m01 with Some b => negb (String.eqb a1 b) | None => false end); eauto with c05.
+  destruct (match assoc a1 m10 with Some b0 => negb (String.eqb a0 b0) | None => false end); eauto with c05.
+Qed.
+
+Lemma map_all_axes_new aps : forall m01 m10, okR (map_all_axes New m01 m10 aps).
+Proof.
+  induction aps as [|[ax0 ax1] r IH]; intros m01 m10; simpl; eauto with c05.
+  destruct (map_axes_new (zip ax0 ax1) m01 m10) as [t ->].
+  destruct t as [[m01' m10']|]; eauto with c05.
+Qed.
+
+(* a cell method whose intervals CellMethod.sorted never indexes *)
+Definition cm_simple (c : cmeth) : Prop :=
+  (length (m_intervals c) <= 1)%nat \/ length (m_axes c) = 1%nat.
+
+Lemma sorted_intervals_ok c idx : cm_simple c -> okR (sorted_intervals c idx).
+Proof.
+  unfold sorted_intervals, cm_simple. intros [H|H].
+  - destruct (Nat.eqb _ 1); eauto with c05.
+    destruct (Nat.leb (length (m_intervals c)) 1) eqn:E; eauto with c05.
+    apply Nat.leb_gt in E. lia.
+  - rewrite H. simpl. eauto with c05.
+Qed.
+
+Lemma one_cm_eq_new o a m c0 c1 : cm_simple c1 -> okR (one_cm_eq New o a m c0 c1).
+Proof.
+  intro H. unfold one_cm_eq. destruct (negb _); eauto with c05.
+  destruct (scan_axes0 _ _ _ _ _ _ _); eauto with c05.
+  destruct (negb _); eauto with c05.
+  apply rbind_ok; [now apply sorted_intervals_ok|eauto with c05].
+Qed.
+
+Lemma cms_zip_eq_new o a m l0 : forall l1,
+  Forall (fun kc => cm_simple (snd kc)) l1 -> okR (cms_zip_eq New o a m l0 l1).
+Proof.
+  induction l0 as [|[k0 c0] r0 IH]; intros l1 H; simpl; eauto with c05.
+  destruct l1 as [|[k1 c1] r1]; eauto with c05.
+  inversion H; subst. apply andR_ok; [now apply one_cm_eq_new|now apply IH].
+Qed.
+
+Lemma cms_eq_new o m l0 l1 :
+  Forall (fun kc => cm_simple (snd kc)) l1 -> okR (cms_eq New o m l0 l1).
+Proof.
+  intro H. unfold cms_eq. destruct (negb _); simpl; eauto with c05. now apply cms_zip_eq_new.
+Qed.
+
+Lemma crs_eq_ok o ps l0 l1 : okR (crs_eq o ps l0 l1).
+Proof.
+  unfold crs_eq. destruct (negb _); eauto with c05.
+  destruct (greedyR_ok (cref_match o ps) l0 (fun a b => okR_Ok _) l1) as [t ->].
+  destruct t; eauto with c05.
+Qed.
+
+Lemma sizes_eq_new x y : okR (sizes_eq New x y).
+Proof. unfold sizes_eq; simpl. eauto with c05. Qed.
+
+Definition cms_simple (f : field) : Prop := Forall (fun kc => cm_simple (snd kc)) (f_cms f).
+
+Lemma constructs_eq_new o x y : cms_simple y -> okR (constructs_eq New o x y).
+Proof.
+  intro W. unfold constructs_eq. apply andR_ok; [apply sizes_eq_new|].
+  destruct (negb _); eauto with c05.
+  destruct (match_groups_new o (f_cons y) (groups (f_cons x)) (groups (f_cons y))) as [t ->].
+  destruct t as [[aps ps]|]; eauto with c05.
+  match goal with |- okR (match map_all_axes New [] [] ?a with _ => _ end) =>
+    destruct (map_all_axes_new a [] []) as [t ->] end.
+  destruct t as [[m01 m10]|]; eauto with c05.
+  repeat apply andR_ok; auto using cms_eq_new, sizes_eq_new, crs_eq_ok.
+Qed.
+
+Definition wf_total (y : top) : Prop :=
+  match y with TField f => cms_simple f | _ => True end.
+
+Theorem top_eq_total : forall o x y, wf_total y ->
+  match top_eq New o x y with Some (Err _) => False | _ => True end.
+Proof.
+  intros o x y W.
+  assert (G : forall r : result bool, okR r -> match Some r with Some (Err _) => False | _ => True end).
+  { intros r [b ->]. exact I. }
+  destruct x, y; simpl; try (destruct (o_itype o); exact I).
+  - unfold cons_eq. destruct (cls_eqb _ _); [apply G, cons_body_eq_new|].
+    destruct (negb _); [exact I|]. destruct (_ && _); [apply G, cons_body_eq_new|exact I].
+  - apply G, pd_eq_new.
+  - unfold field_eq. destruct (negb _); [destruct (o_itype o); exact I|].
+    apply G, andR_ok; [apply pd_eq_new|now apply constructs_eq_new].
+Qed.
+
+(* ====================================================================== *)
+(* C. a construct equals a structurally identical one (its copy)           *)
+(* ====================================================================== *)
+Definition tol_ok (t : Z * Z) : Prop := 0 <= fst t /\ 0 < snd t.
+Definition opts_ok (o : opts) : Prop := tol_ok (rt o) /\ tol_ok (at_ o).
+
+Lemma default_tol_ok : tol_ok default_tol.
+Proof. unfold tol_ok, default_tol; simpl; lia. Qed.
+
+Lemma close_refl r a x : tol_ok r -> tol_ok a -> close r a x x = true.
+Proof.
+  destruct r as [nr dr], a as [na da]; unfold tol_ok, close; simpl; intros [? ?] [? ?].
+  rewrite Z.sub_diag. simpl. apply Z.leb_le. nia.
+Qed.
+
+Lemma forallb2_refl {A} (f : A -> A -> bool) l : (forall x, f x x = true) -> forallb2 f l l = true.
+Proof. intro H; induction l; simpl; auto. now rewrite H, IHl. Qed.
+
+Lemma list_eqb_refl {A} (f : A -> A -> bool) l : (forall x, f x x = true) -> list_eqb f l l = true.
+Proof. intro H; induction l; simpl; auto. now rewrite H, IHl. Qed.
+
+Lemma option_eqb_refl {A} (f : A -> A -> bool) o : (forall x, f x x = true) -> option_eqb f o o = true.
+Proof. intro H; destruct o; simpl; auto. Qed.
+
+Lemma bool_eqb_refl b : Bool.eqb b b = true.
+Proof. now destruct b. Qed.
+
+Lemma elem_eq_refl m r a v : tol_ok r -> tol_ok a -> (m = 0 \/ m = 1) -> elem_eq m r a v v = true.
+Proof.
+  intros Hr Ha Hm. destruct v; simpl; auto.
+  destruct Hm as [-> | ->]; simpl; [now apply close_refl|apply Z.eqb_refl].
+Qed.
+
+Lemma np_equals_refl idt r a x : tol_ok r -> tol_ok a -> np_equals idt r a x x = true.
+Proof.
+  intros Hr Ha. unfold np_equals.
+  rewrite (list_eqb_refl Z.eqb _ Z.eqb_refl), Z.eqb_refl, (list_eqb_refl Bool.eqb _ bool_eqb_refl).
+  simpl. rewrite andb_false_r. simpl.
+  apply forallb2_refl. intro v. apply elem_eq_refl; auto. destruct (a_str x); auto.
+Qed.
+
+Lemma pval_eq_refl r a v : tol_ok r -> tol_ok a -> pval_eq r a v v = true.
+Proof. intros; destruct v; simpl; [apply String.eqb_refl|now apply np_equals_refl]. Qed.
+
+Lemma mem_in s l : mem s l = true <-> In s l.
+Proof.
+  unfold mem. rewrite existsb_exists. split.
+  - intros [x [H E]]. apply String.eqb_eq in E. now subst.
+  - intro H. exists s. split; auto. apply String.eqb_refl.
+Qed.
+
+Lemma same_keys_refl {A} (p : list (string * A)) : same_keys p p = true.
+Proof.
+  unfold same_keys. assert (H : forallb (fun k => mem k (keys p)) (keys p) = true).
+  { apply forallb_forall. intros k Hk. now apply mem_in. }
+  now rewrite H.
+Qed.
+
+Lemma assoc_nodup {A} (p : list (string * A)) k v :
+  NoDup (keys p) -> In (k, v) p -> assoc k p = Some v.
+Proof.
+  induction p as [|[k' v'] r IH]; simpl; intros N I; [contradiction|].
+  inversion N; subst. destruct I as [E|I].
+  - inversion E; subst. now rewrite String.eqb_refl.
+  - destruct (String.eqb k k') eqn:E.
+    + apply String.eqb_eq in E; subst. exfalso. apply H1. unfold keys. change k' with (fst (k', v)).
+      now apply in_map.
+    + now apply IH.
+Qed.
+
+Lemma dict_eq_refl {A} (veq : A -> A -> bool) p :
+  NoDup (keys p) -> (forall v, veq v v = true) -> dict_eq veq p p = true.
+Proof.
+  intros N H. unfold dict_eq. rewrite same_keys_refl. simpl.
+  apply forallb_forall. intros [k v] I. simpl. rewrite (assoc_nodup p k v N I). apply H.
+Qed.
+
+Lemma strip_nodup {A} ign (p : list (string * A)) : NoDup (keys p) -> NoDup (keys (strip ign p)).
+Proof.
+  unfold strip, keys. induction p as [|[k v] r IH]; simpl; intro N; [constructor|].
+  inversion N; subst. destruct (negb (mem k ign)); simpl; auto.
+  constructor; auto. intro I. apply H1. apply in_map_iff in I. destruct I as [[k' v'] [E I]].
+  simpl in E; subst. apply filter_In in I. destruct I as [I _]. change k with (fst (k, v')).
+  now apply in_map.
+Qed.
+
+Lemma data_eq_refl r a idt ifv icomp d : tol_ok r -> tol_ok a -> data_eq r a idt ifv icomp d d = true.
+Proof.
+  intros Hr Ha. unfold data_eq.
+  rewrite (list_eqb_refl Z.eqb _ Z.eqb_refl), (option_eqb_refl Z.eqb _ Z.eqb_refl), Z.eqb_refl,
+    !(option_eqb_refl String.eqb _ String.eqb_refl), String.eqb_refl, !np_equals_refl; auto.
+  now rewrite !orb_true_r.
+Qed.
+
+Definition wf_pd (p : pd) : Prop := NoDup (keys (p_props p)).
+Definition wf_opd (p : option pd) : Prop := match p with Some q => wf_pd q | None => True end.
+Definition wf_cons (c : cons) : Prop := wf_pd (c_pd c) /\ wf_opd (c_bounds c) /\ wf_opd (c_iring c).
+
+Lemma pd_eq_refl o ip p : opts_ok o -> wf_pd p -> pd_eq New o ip p p = Ok true.
+Proof.
+  intros [Hr Ha] W. unfold pd_eq. rewrite bool_eqb_refl. simpl.
+  destruct (p_ext p).
+  - now rewrite (option_eqb_refl String.eqb _ String.eqb_refl).
+  - destruct (ign_list_new (o_ifv o) ip) as [ign ->]. simpl. f_equal.
+    unfold props_eq. rewrite dict_eq_refl; auto using strip_nodup, pval_eq_refl.
+    simpl. destruct (p_data p); simpl; auto. now apply data_eq_refl.
+Qed.
+
+Lemma opt_pd_eq_refl o p : opts_ok o -> wf_opd p -> opt_pd_eq New o p p = Ok true.
+Proof. intros; destruct p; simpl; auto. now apply pd_eq_refl. Qed.
+
+Theorem cons_copy_equal : forall o x, opts_ok o -> wf_cons x -> cons_eq New o x x = Some (Ok true).
+Proof.
+  intros o x Ho (W1 & W2 & W3). unfold cons_eq.
+  assert (E : cls_eqb (c_cls x) (c_cls x) = true) by (destruct (c_cls x); reflexivity).
+  rewrite E. f_equal. unfold cons_body_eq.
+  rewrite pd_eq_refl, !opt_pd_eq_refl, !(option_eqb_refl String.eqb _ String.eqb_refl); auto.
+Qed.
+
+Lemma cm_eq_refl o c : opts_ok o -> NoDup (keys (m_quals c)) -> cm_eq o c c = true.
+Proof.
+  intros [Hr Ha] N. unfold cm_eq.
+  rewrite (option_eqb_refl String.eqb _ String.eqb_refl), dict_eq_refl; auto using String.eqb_refl.
+  simpl. assert (F : forallb2 (data_eq (rt o) (at_ o) true true true) (m_intervals c) (m_intervals c) = true).
+  { apply forallb2_refl. intro d. now apply data_eq_refl. }
+  destruct (m_intervals c) eqn:E; auto.
+  rewrite Nat.eqb_refl. exact F.
+Qed.
+
+Lemma opval_eq_refl r a v : tol_ok r -> tol_ok a -> opval_eq r a v v = true.
+Proof. intros; destruct v; simpl; auto using pval_eq_refl. Qed.
+
+Lemma cref_eq_refl o c : opts_ok o ->
+  NoDup (keys (r_cparams c)) -> NoDup (keys (r_cdas c)) -> NoDup (keys (r_dparams c)) -> cref_eq o c c = true.
+Proof.
+  intros [Hr Ha] N1 N2 N3. unfold cref_eq.
+  rewrite Nat.eqb_refl, !dict_eq_refl; auto using opval_eq_refl, bool_eqb_refl.
+Qed.
+
+(* ====================================================================== *)
+(* E. equal implies every component agrees (discrimination)                *)
+(* ====================================================================== *)
+Lemma list_eqb_Z_eq l1 l2 : list_eqb Z.eqb l1 l2 = true -> l1 = l2.
+Proof. apply list_eqb_eq. intros; apply Z.eqb_eq. Qed.
+Lemma list_eqb_bool_eq l1 l2 : list_eqb Bool.eqb l1 l2 = true -> l1 = l2.
+Proof. apply list_eqb_eq. intros x y; split; [apply eqb_prop|intros ->; apply bool_eqb_refl]. Qed.
+Lemma option_eqb_string_eq a b : option_eqb String.eqb a b = true -> a = b.
+Proof. destruct a, b; simpl; try discriminate; auto. intro E. apply String.eqb_eq in E. now subst. Qed.
+Lemma option_eqb_Z_eq a b : option_eqb Z.eqb a b = true -> a = b.
+Proof. destruct a, b; simpl; try discriminate; auto. intro E. apply Z.eqb_eq in E. now subst. Qed.
+
+Lemma np_equals_inv idt r a x y : np_equals idt r a x y = true ->
+  a_shape x = a_shape y /\ mask_of x = mask_of y /\
+  (idt = false -> a_str x = false -> a_str y = false -> a_tag x = a_tag y) /\
+  forallb2 (elem_eq (if a_str x then (if a_str y then 1 else 2) else (if a_str y then 2 else 0)) r a)
+           (a_vals x) (a_vals y) = true.
+Proof.
+  unfold np_equals.
+  destruct (list_eqb Z.eqb (a_shape x) (a_shape y)) eqn:E1; simpl; [|discriminate].
+  destruct (negb idt && negb (a_tag x =? a_tag y) && negb (a_str x) && negb (a_str y)) eqn:E2; [discriminate|].
+  destruct (list_eqb Bool.eqb (mask_of x) (mask_of y)) eqn:E3; simpl; [|discriminate].
+  intro H. splits; auto using list_eqb_Z_eq, list_eqb_bool_eq.
+  intros -> S1 S2. rewrite S1, S2 in E2. simpl in E2. rewrite !andb_true_r in E2.
+  apply negb_false_iff in E2. now apply Z.eqb_eq.
+Qed.
+
+Theorem data_equal_components : forall r a idt ifv icomp x y,
+  data_eq r a idt ifv icomp x y = true ->
+  a_shape (d_arr x) = a_shape (d_arr y) /\
+  mask_of (d_arr x) = mask_of (d_arr y) /\
+  d_units x = d_units y /\ d_cal x = d_cal y /\
+  (ifv = false -> d_fill x = d_fill y) /\
+  (idt = false -> a_tag (d_arr x) = a_tag (d_arr y)) /\
+  (icomp = false -> d_ctype x = d_ctype y) /\
+  forallb2 (elem_eq (if a_str (d_arr x) then (if a_str (d_arr y) then 1 else 2)
+                     else (if a_str (d_arr y) then 2 else 0)) r a)
+           (a_vals (d_arr x)) (a_vals (d_arr y)) = true.
+Proof.
+  intros r a idt ifv icomp x y H. unfold data_eq in H.
+  repeat (apply andb_true_iff in H; destruct H as [H ?]).
+  match goal with N : np_equals idt r a _ _ = true |- _ => apply np_equals_inv in N;
+    destruct N as (N1 & N2 & _ & N4) end.
+  splits; auto using option_eqb_string_eq.
+  - intros ->. simpl in *. now apply option_eqb_Z_eq.
+  - intros ->. simpl in *. now apply Z.eqb_eq.
+  - intros ->. simpl in *. match goal with C : _ && _ = true |- _ => apply andb_true_iff in C; destruct C as [C _];
+      now apply String.eqb_eq in C end.
+Qed.
+
+Lemma andR_true a k : andR a k = Ok true -> a = Ok true /\ k = Ok true.
+Proof. destruct a as [[|]|e]; simpl; intro H; try discriminate; auto. Qed.
+
+Lemma dict_eq_inv {A} (veq : A -> A -> bool) p q : dict_eq veq p q = true ->
+  (forall k, In k (keys p) <-> In k (keys q)) /\
+  (forall k v, In (k, v) p -> exists w, assoc k q = Some w /\ veq v w = true).
+Proof.
+  unfold dict_eq, same_keys. intro H.
+  apply andb_true_iff in H. destruct H as [H1 H2]. apply andb_true_iff in H1. destruct H1 as [H0 H1].
+  rewrite forallb_forall in H0, H1, H2. split.
+  - intro k; split; intro I; apply mem_in; auto.
+  - intros k v I. specialize (H2 _ I). simpl in H2. destruct (assoc k q); [eauto|discriminate].
+Qed.
+
+(* the part of a construct that PropertiesData.equals looks at *)
+Theorem pd_equal_components : forall o ip x y, pd_eq New o ip x y = Ok true ->
+  p_ext x = p_ext y /\
+  (p_ext x = true -> p_ncvar x = p_ncvar y) /\
+  (p_ext x = false ->
+     exists ign, ign_list New (o_ifv o) ip = Ok ign /\
+       (forall k, In k (keys (strip ign (p_props x))) <-> In k (keys (strip ign (p_props y)))) /\
+       (forall k v, In (k, v) (strip ign (p_props x)) ->
+          exists w, assoc k (strip ign (p_props y)) = Some w /\ pval_eq (rt o) (at_ o) v w = true) /\
+       opt_data_eq (rt o) (at_ o) (o_idt o) (o_ifv o) (o_icomp o) (p_data x) (p_data y) = true).
+Proof.
+  intros o ip x y. unfold pd_eq.
+  destruct (Bool.eqb (p_ext x) (p_ext y)) eqn:E; simpl; [|discriminate].
+  apply eqb_prop in E. destruct (p_ext x) eqn:X.
+  - intro H. injection H as H'. split; [exact E|split].
+    + intros _. now apply option_eqb_string_eq.
+    + discriminate.
+  - destruct (ign_list_new (o_ifv o) ip) as [ign ->]. simpl. intro H. injection H as H'.
+    apply andb_true_iff in H'. destruct H' as [P D]. unfold props_eq in P.
+    apply dict_eq_inv in P. destruct P as [P1 P2].
+    split; [exact E|split]; [discriminate|]. intros _. exists ign. splits; auto.
+Qed.
+
+Theorem cons_equal_components : forall o x y, cons_body_eq New o x y = Ok true ->
+  pd_eq New o (o_ip o) (c_pd x) (c_pd y) = Ok true /\
+  c_geom x = c_geom y /\ c_meas x = c_meas y /\
+  opt_pd_eq New o (c_bounds x) (c_bounds y) = Ok true /\
+  opt_pd_eq New o (c_iring x) (c_iring y) = Ok true /\
+  is_none (c_bounds x) = is_none (c_bounds y) /\ is_none (c_iring x) = is_none (c_iring y).
+Proof.
+  intros o x y H. unfold cons_body_eq in H.
+  apply andR_true in H. destruct H as [H1 H]. apply andR_true in H. destruct H as [H2 H].
+  apply andR_true in H. destruct H as [H3 H]. apply andR_true in H. destruct H as [H4 H5].
+  injection H2 as H2. injection H5 as H5. splits; auto using option_eqb_string_eq.
+  - destruct (c_bounds x), (c_bounds y); simpl in *; auto; discriminate.
+  - destruct (c_iring x), (c_iring y); simpl in *; auto; discriminate.
+Qed.
+
+(* each ignore option removes exactly the class of difference it names *)
+Definition no_fill (d : data) : data := mkD (d_arr d) None (d_units d) (d_cal d) (d_ctype d) (d_carr d).
+Definition no_comp (d : data) : data := mkD (d_arr d) (d_fill d) (d_units d) (d_cal d) EmptyString (d_carr d).
+Definition no_tag (d : data) : data :=
+  mkD (mkA (a_shape (d_arr d)) (a_str (d_arr d)) 0 (a_vals (d_arr d))) (d_fill d) (d_units d) (d_cal d)
+      (d_ctype d) (d_carr d).
+
+Theorem ignore_fill_value_exact : forall r a idt icomp x y,
+  data_eq r a idt true icomp x y = data_eq r a idt false icomp (no_fill x) (no_fill y).
+Proof. intros. unfold data_eq, no_fill; simpl. reflexivity. Qed.
+
+Theorem ignore_compression_exact : forall r a idt ifv x y,
+  data_eq r a idt ifv true x y = data_eq r a idt ifv false (no_comp x) (no_comp y).
+Proof. intros. unfold data_eq, no_comp; simpl. reflexivity. Qed.
+
+Theorem ignore_data_type_exact : forall r a ifv icomp x y,
+  data_eq r a true ifv icomp x y = data_eq r a false ifv icomp (no_tag x) (no_tag y).
+Proof. intros. unfold data_eq, no_tag, np_equals, mask_of; simpl. reflexivity. Qed.
+
+Lemma strip_app {A} l1 l2 (p : list (string * A)) : strip (l1 ++ l2) p = strip l1 (strip l2 p).
+Proof.
+  unfold strip. induction p as [|[k v] r IH]; simpl; auto.
+  unfold mem in *. rewrite existsb_app. destruct (existsb (String.eqb k) l2) eqn:E2; simpl.
+  - rewrite orb_true_r. simpl. exact IH.
+  - rewrite orb_false_r. destruct (existsb (String.eqb k) l1); simpl; now rewrite IH.
+Qed.
+
+(* ignore_properties / ignore_fill_value act on the property lists by removing the named
+   properties from both sides and on nothing else *)
+Theorem ignore_properties_exact : forall r a ign p q,
+  props_eq r a ign p q = props_eq r a [] (strip ign p) (strip ign q).
+Proof.
+  intros. unfold props_eq. f_equal; unfold strip; simpl;
+  match goal with |- _ = filter _ ?l => induction l as [|kv l' IH]; simpl; auto; now rewrite <- IH end.
+Qed.
+
+(* ====================================================================== *)
+(* F. the axis mapping is one-to-one and covers the field's data axes      *)
+(* ====================================================================== *)
+Lemma assoc_app {A} k (l l' : list (string * A)) :
+  assoc k (l ++ l') = match assoc k l with Some v => Some v | None => assoc k l' end.
+Proof. induction l as [|[k' v'] r IH]; simpl; auto. destruct (String.eqb k k'); auto. Qed.
+
+Lemma mem_keys_assoc {A} k (l : list (string * A)) :
+  mem k (keys l) = match assoc k l with Some _ => true | None => false end.
+Proof.
+  induction l as [|[k' v'] r IH]; simpl; auto. unfold mem in *; simpl.
+  destruct (String.eqb k k'); auto.
+Qed.
+
+Lemma extend_assoc (m : amap) a b :
+  (match assoc a m with Some b' => negb (String.eqb b b') | None => false end) = false ->
+  let m' := if mem a (keys m) then m else m ++ [(a, b)] in
+  assoc a m' = Some b /\ (forall k v, assoc k m = Some v -> assoc k m' = Some v).
+Proof.
+  intro H. rewrite mem_keys_assoc. destruct (assoc a m) as [b'|] eqn:E; simpl.
+  - apply negb_false_iff, String.eqb_eq in H. subst. auto.
+  - split.
+    + rewrite assoc_app, E. simpl. now rewrite String.eqb_refl.
+    + intros k v K. now rewrite assoc_app, K.
+Qed.
+
+Lemma map_axes_sound z : forall m01 m10 m01' m10',
+  map_axes New m01 m10 z = Ok (Some (m01', m10')) ->
+  (forall k v, assoc k m01 = Some v -> assoc k m01' = Some v) /\
+  (forall k v, assoc k m10 = Some v -> assoc k m10' = Some v) /\
+  (forall a b, In (a, b) z -> assoc a m01' = Some b /\ assoc b m10' = Some a).
+Proof.
+  induction z as [|[a0 a1] r IH]; intros m01 m10 m01' m10'; simpl.
+  - intro H; inversion H; subst. splits; auto. intros ? ? [].
+  - destruct (match assoc a0 m01 with Some b => negb (String.eqb a1 b) | None => false end) eqn:E1; [discriminate|].
+    destruct (match assoc a1 m10 with Some b0 => negb (String.eqb a0 b0) | None => false end) eqn:E2; [discriminate|].
+    intro H. apply IH in H. destruct H as (P1 & P2 & P3).
+    destruct (extend_assoc m01 a0 a1 E1) as [X1 X2]. destruct (extend_assoc m10 a1 a0 E2) as [Y1 Y2].
+    splits; auto.
+    intros a b [I|I]; [inversion I; subst; auto|now apply P3].
+Qed.
+
+Lemma map_all_axes_sound aps : forall m01 m10 m01' m10',
+  map_all_axes New m01 m10 aps = Ok (Some (m01', m10')) ->
+  (forall k v, assoc k m01 = Some v -> assoc k m01' = Some v) /\
+  (forall k v, assoc k m10 = Some v -> assoc k m10' = Some v) /\
+  (forall ax0 ax1 a b, In (ax0, ax1) aps -> In (a, b) (zip ax0 ax1) ->
+     assoc a m01' = Some b /\ assoc b m10' = Some a).
+Proof.
+  induction aps as [|[ax0 ax1] r IH]; intros m01 m10 m01' m10'; simpl.
+  - intro H; inversion H; subst. splits; auto. intros ? ? ? ? [].
+  - destruct (map_axes New m01 m10 (zip ax0 ax1)) as [[[n01 n10]|]|e] eqn:E; try discriminate.
+    intro H. apply map_axes_sound in E. destruct E as (Q1 & Q2 & Q3).
+    apply IH in H. destruct H as (P1 & P2 & P3). splits; auto.
+    intros bx0 bx1 a b [I|I] J; [inversion I; subst|eauto].
+    destruct (Q3 _ _ J). auto.
+Qed.
+
+(* what Constructs.equals has established when it answers True *)
+Theorem axis_map_sound : forall o x y, constructs_eq New o x y = Ok true ->
+  exists aps ps m01 m10,
+    match_groups New o (f_cons y) (groups (f_cons x)) (groups (f_cons y)) = Ok (Some (aps, ps)) /\
+    (forall ax0 ax1 a b,
+       (In (ax0, ax1) aps \/ (f_daxes x = Some ax0 /\ f_daxes y = Some ax1)) ->
+       In (a, b) (zip ax0 ax1) -> assoc a m01 = Some b /\ assoc b m10 = Some a).
+Proof.
+  intros o x y H. unfold constructs_eq in H. apply andR_true in H. destruct H as [_ H].
+  destruct (negb _); [discriminate|].
+  destruct (match_groups New o (f_cons y) (groups (f_cons x)) (groups (f_cons y))) as [[[aps ps]|]|e] eqn:G;
+    try discriminate.
+  simpl in H.
+  match type of H with match map_all_axes New [] [] ?a with _ => _ end = _ =>
+    destruct (map_all_axes New [] [] a) as [[[m01 m10]|]|e] eqn:M; try discriminate end.
+  exists aps, ps, m01, m10. split; auto.
+  apply map_all_axes_sound in M. destruct M as (_ & _ & M).
+  intros ax0 ax1 a b [I|[D0 D1]] J.
+  - apply (M ax0 ax1); auto.
+    destruct (f_daxes x), (f_daxes y); auto; apply in_or_app; auto.
+  - rewrite D0, D1 in M. apply (M ax0 ax1); auto. apply in_or_app. right. left. reflexivity.
+Qed.
+
+(* hence the data axes correspond one to one *)
+Corollary data_axes_one_to_one : forall o x y d0 d1, constructs_eq New o x y = Ok true ->
+  f_daxes x = Some d0 -> f_daxes y = Some d1 ->
+  forall a b a' b', In (a, b) (zip d0 d1) -> In (a', b') (zip d0 d1) -> (a = a' <-> b = b').
+Proof.
+  intros o x y d0 d1 H D0 D1 a b a' b' I I'.
+  destruct (axis_map_sound o x y H) as (aps & ps & m01 & m10 & _ & S).
+  destruct (S d0 d1 a b (or_intror (conj D0 D1)) I) as [A1 A2].
+  destruct (S d0 d1 a' b' (or_intror (conj D0 D1)) I') as [B1 B2].
+  split; intros ->; congruence.
+Qed.
+
+(* ====================================================================== *)
+(* D. symmetry when no numerical tolerance is in play (rtol = atol = 0)    *)
+(* ====================================================================== *)
+Definition tol_zero (t : Z * Z) : Prop := fst t = 0 /\ 0 < snd t.
+Definition exact (o : opts) : Prop := tol_zero (rt o) /\ tol_zero (at_ o).
+
+Lemma close_exact r a x y : tol_zero r -> tol_zero a -> close r a x y = (x =? y).
+Proof.
+  destruct r as [nr dr], a as [na da]; unfold tol_zero, close; simpl; intros [-> ?] [-> ?].
+  destruct (Z.eqb_spec x y) as [->|N].
+  - rewrite Z.sub_diag. simpl. apply Z.leb_le. lia.
+  - apply Z.leb_gt. assert (0 < Z.abs (x - y)) by lia. nia.
+Qed.
+
+Lemma list_eqb_sym {A} (f : A -> A -> bool) : (forall x y, f x y = f y x) ->
+  forall l1 l2, list_eqb f l1 l2 = list_eqb f l2 l1.
+Proof. intros H l1; induction l1; intros [|y r]; simpl; auto. now rewrite H, IHl1. Qed.
+
+Lemma forallb2_sym {A} (f : A -> A -> bool) : (forall x y, f x y = f y x) ->
+  forall l1 l2, forallb2 f l1 l2 = forallb2 f l2 l1.
+Proof. intros H l1; induction l1; intros [|y r]; simpl; auto. now rewrite H, IHl1. Qed.
+
+Lemma option_eqb_sym {A} (f : A -> A -> bool) : (forall x y, f x y = f y x) ->
+  forall a b, option_eqb f a b = option_eqb f b a.
+Proof. intros H [x|] [y|]; simpl; auto. Qed.
+
+Lemma bool_eqb_sym a b : Bool.eqb a b = Bool.eqb b a.
+Proof. now destruct a, b. Qed.
+
+Lemma np_equals_sym idt r a x y : tol_zero r -> tol_zero a ->
+  np_equals idt r a x y = np_equals idt r a y x.
+Proof.
+  intros Hr Ha. unfold np_equals.
+  rewrite (list_eqb_sym Z.eqb Z.eqb_sym (a_shape x) (a_shape y)), (Z.eqb_sym (a_tag x) (a_tag y)),
+    (list_eqb_sym Bool.eqb bool_eqb_sym (mask_of x) (mask_of y)).
+  destruct (list_eqb Z.eqb (a_shape y) (a_shape x)); simpl; auto.
+  replace (negb idt && negb (a_tag y =? a_tag x) && negb (a_str x) && negb (a_str y))
+    with (negb idt && negb (a_tag y =? a_tag x) && negb (a_str y) && negb (a_str x))
+    by (destruct idt, (a_tag y =? a_tag x), (a_str x), (a_str y); reflexivity).
+  destruct (negb idt && negb (a_tag y =? a_tag x) && negb (a_str y) && negb (a_str x)); auto.
+  destruct (list_eqb Bool.eqb (mask_of y) (mask_of x)); simpl; auto.
+  replace (if a_str y then if a_str x then 1 else 2 else if a_str x then 2 else 0)
+    with (if a_str x then if a_str y then 1 else 2 else if a_str y then 2 else 0)
+    by (destruct (a_str x), (a_str y); reflexivity).
+  apply forallb2_sym. intros [u|] [w|]; simpl; auto.
+  rewrite !close_exact by assumption. rewrite (Z.eqb_sym u w). reflexivity.
+Qed.
+
+Lemma pval_eq_sym r a u w : tol_zero r -> tol_zero a -> pval_eq r a u w = pval_eq r a w u.
+Proof. intros; destruct u, w; simpl; auto using String.eqb_sym, np_equals_sym. Qed.
+
+Lemma same_keys_sym {A B} (p : list (string * A)) (q : list (string * B)) : same_keys p q = same_keys q p.
+Proof. unfold same_keys. apply andb_comm. Qed.
+
+Lemma in_keys {A} k (p : list (string * A)) : In k (keys p) -> exists v, In (k, v) p.
+Proof.
+  unfold keys. intro I. apply in_map_iff in I. destruct I as [[k' v] [E I]]. simpl in E; subst. eauto.
+Qed.
+
+Lemma dict_eq_sym_imp {A} (veq : A -> A -> bool) p q :
+  (forall u w, veq u w = veq w u) -> NoDup (keys p) -> NoDup (keys q) ->
+  dict_eq veq p q = true -> dict_eq veq q p = true.
+Proof.
+  intros S Np Nq H. pose proof H as H0. apply dict_eq_inv in H0. destruct H0 as [K V].
+  unfold dict_eq in *. apply andb_true_iff in H. destruct H as [SK _].
+  rewrite same_keys_sym, SK. simpl. apply forallb_forall. intros [k w] I. simpl.
+  assert (Ik : In k (keys q)). { unfold keys. change k with (fst (k, w)). now apply in_map. }
+  apply K in Ik. apply in_keys in Ik. destruct Ik as [v Iv].
+  rewrite (assoc_nodup p k v Np Iv).
+  destruct (V k v Iv) as [w' [Aq E]]. rewrite (assoc_nodup q k w Nq I) in Aq. inversion Aq; subst.
+  now rewrite S.
+Qed.
+
+Lemma dict_eq_sym {A} (veq : A -> A -> bool) p q :
+  (forall u w, veq u w = veq w u) -> NoDup (keys p) -> NoDup (keys q) ->
+  dict_eq veq p q = dict_eq veq q p.
+Proof.
+  intros S Np Nq. destruct (dict_eq veq p q) eqn:E1, (dict_eq veq q p) eqn:E2; auto.
+  - rewrite (dict_eq_sym_imp veq p q S Np Nq E1) in E2. discriminate.
+  - rewrite (dict_eq_sym_imp veq q p S Nq Np E2) in E1. discriminate.
+Qed.
+
+Lemma data_eq_sym r a idt ifv icomp x y : tol_zero r -> tol_zero a ->
+  data_eq r a idt ifv icomp x y = data_eq r a idt ifv icomp y x.
+Proof.
+  intros Hr Ha. unfold data_eq.
+  rewrite (list_eqb_sym Z.eqb Z.eqb_sym (a_shape (d_arr x))), (option_eqb_sym Z.eqb Z.eqb_sym (d_fill x)),
+    (Z.eqb_sym (a_tag (d_arr x))), (option_eqb_sym String.eqb String.eqb_sym (d_units x)),
+    (option_eqb_sym String.eqb String.eqb_sym (d_cal x)), (String.eqb_sym (d_ctype x)),
+    (np_equals_sym false r a (d_carr x)), (np_equals_sym idt r a (d_arr x)) by assumption.
+  destruct (String.eqb (d_ctype y) (d_ctype x)) eqn:E; auto.
+  apply String.eqb_eq in E. now rewrite E.
+Qed.
+
+Lemma opt_data_eq_sym r a idt ifv icomp x y : tol_zero r -> tol_zero a ->
+  opt_data_eq r a idt ifv icomp x y = opt_data_eq r a idt ifv icomp y x.
+Proof. intros; destruct x, y; simpl; auto using data_eq_sym. Qed.
+
+Lemma pd_eq_sym o ip x y : exact o -> wf_pd x -> wf_pd y -> pd_eq New o ip x y = pd_eq New o ip y x.
+Proof.
+  intros [Hr Ha] Wx Wy. unfold pd_eq. rewrite (bool_eqb_sym (p_ext x) (p_ext y)).
+  destruct (Bool.eqb (p_ext y) (p_ext x)) eqn:E; simpl; auto.
+  apply eqb_prop in E. rewrite E. destruct (p_ext x).
+  - now rewrite (option_eqb_sym String.eqb String.eqb_sym).
+  - destruct (ign_list_new (o_ifv o) ip) as [ign ->]. simpl. f_equal. unfold props_eq.
+    rewrite (dict_eq_sym (pval_eq (rt o) (at_ o)) (strip ign (p_props x)) (strip ign (p_props y)));
+      auto using strip_nodup, pval_eq_sym.
+    now rewrite (opt_data_eq_sym _ _ _ _ _ (p_data x)).
+Qed.
+
+Lemma opt_pd_eq_sym o x y : exact o -> wf_opd x -> wf_opd y -> opt_pd_eq New o x y = opt_pd_eq New o y x.
+Proof. intros; destruct x, y; simpl; auto using pd_eq_sym. Qed.
+
+Lemma andR_congr a a' k k' : a = a' -> k = k' -> andR a k = andR a' k'.
+Proof. now intros -> ->. Qed.
+
+Theorem cons_sym_exact : forall o x y, exact o -> wf_cons x -> wf_cons y ->
+  cons_eq New o x y = cons_eq New o y x.
+Proof.
+  intros o x y He (X1 & X2 & X3) (Y1 & Y2 & Y3).
+  assert (B : cons_body_eq New o x y = cons_body_eq New o y x).
+  { unfold cons_body_eq. repeat apply andR_congr; auto using pd_eq_sym, opt_pd_eq_sym;
+      f_equal; apply option_eqb_sym, String.eqb_sym. }
+  unfold cons_eq.
+  assert (C : cls_eqb (c_cls x) (c_cls y) = cls_eqb (c_cls y) (c_cls x))
+    by (destruct (c_cls x), (c_cls y); reflexivity).
+  rewrite C, B, (andb_comm (bounded (c_cls x))). reflexivity.
+Qed.
+
+Theorem data_sym_exact : forall o x y, exact o ->
+  top_eq New o (TData x) (TData y) = top_eq New o (TData y) (TData x).
+Proof. intros o x y [Hr Ha]. simpl. now rewrite data_eq_sym. Qed.
+
+(* ====================================================================== *)
+(* witnesses and non-vacuity                                               *)
+(* ====================================================================== *)
+From CfdmV Require Import C05.Refuted.
+
+Lemma total_unguarded_refuted : exists o x y, top_eq New o x y = Some (Err IndexErr).
+Proof. eexists _, _, _. exact total_unguarded_witness. Qed.
+
+Lemma key_blind_unspanned_axis_refuted : exists o x y y',
+  (* y' is y with one domain axis key renamed throughout *)
+  top_eq New o x y = Some (Ok true) /\ top_eq New o x y' = Some (Ok false).
+Proof. eexists _, _, _, _. exact key_blind_unspanned_axis_witness. Qed.
+
+Lemma order_blind_twin_axes_refuted : exists o x y y',
+  (* y' is y with its two coordinate constructs inserted in the other order *)
+  top_eq New o x y = Some (Ok true) /\ top_eq New o x y' = Some (Ok false).
+Proof. eexists _, _, _, _. exact order_blind_twin_axes_witness. Qed.
+
+Lemma o0_ok : opts_ok o0.
+Proof. split; apply default_tol_ok. Qed.
+
+Lemma examples_nonvacuous :
+  opts_ok o0 /\ wf_cons lat /\ wf_total (TField base) /\
+  exact (mkO (Some (0, 1)) (Some (0, 1)) false false IPNone true false) /\
+  cons_eq New o0 lat lat = Some (Ok true) /\
+  top_eq New o0 (TField base) (TField base) = Some (Ok true) /\
+  constructs_eq New o0 base base = Ok true.
+Proof.
+  splits; try (vm_compute; reflexivity).
+  - exact o0_ok.
+  - unfold wf_cons, wf_pd, wf_opd; simpl. splits; auto. repeat constructor; simpl; intuition discriminate.
+  - constructor.
+  - split; split; simpl; lia.
+Qed.
